@@ -324,7 +324,7 @@ P['intstr'] = [C('12'), C('ff'), C('0x1f'), C('0b101'), C('101'), C(' z '), C(b'
                C('0o17'), C('-0'), C('abc'), C(''), C(12), C(1.5), C(None)]
 P['base'] = [C(0), C(16), C(2), C(8), C(10), C(36), C(1), C(37), C(-1), C(True), V('U__index__(16)', lambda: dunder('__index__', 16)),
              C(2.0), C('10'), C(None), C(10 ** 20)]
-P['len'] = [V('[1, 2]', lambda: [1, 2]), C(()), C('abc'), V('{1: 2}', lambda: {1: 2}), V('{1, 2}', lambda: {1, 2}),
+P['len'] = [V('[1, 2]', lambda: [1, 2]), C(()), C('abc'), C(' a b '), C(''), C(u'\u00e9\U0001F600'), V('{1: 2}', lambda: {1: 2}), V('{1, 2}', lambda: {1, 2}),
             V('range(5)', lambda: range(5)), C(b'ab'), V('range(10**12)', lambda: range(10 ** 12)),
             V('U__len__(3)', lambda: dunder('__len__', 3)), V('U__len__(-1)', lambda: dunder('__len__', -1)),
             V("U__len__('x')", lambda: dunder('__len__', 'x')), V('U__len__(True)', lambda: dunder('__len__', True)),
